@@ -143,7 +143,7 @@ func init() {
 	props["C12"] = &propCfg{
 		Harness: "apisim", Pkgs: "log,modules,config,api,rng,database,database/iterator,database/storage/hashmap,database/storage/bbolt", ExtPkgs: "go.etcd.io/bbolt,github.com/bluele/gcache", QuickRuns: 8000, ThoroughRuns: 300000, RunsPerProc: 200,
 		QuickWall: 75 * time.Second, ThoroughWall: 15 * time.Minute, Level: "exploration",
-		Rule: "one evaluation = one simulated history of 3-18 steps: configure API keys (read/write permission, expiry), switch development mode, advance the clock (session TTL, key expiry), clean sessions, and requests to mainHandler.ServeHTTP with every method (incl. OPTIONS with/without preflight header, PATCH), a handler declaring any of 9 read/write permissions (NotFound, Dynamic, NotSupported, Anyone, User, Admin, Self, out of range), credentials (none, Bearer/Basic key valid/expired/unknown/0-3 bytes, malformed Authorization, session cookie valid/expired/unknown, scripted authenticator token/nil/error/denied with valid and invalid permissions, bridge address) and Origin headers; every response is compared with an independent decision function; every fourth run is a slice of the complete decision table (81 handler permission pairs x 9 methods x 20 credential states = 14580 cells, 12 cells per run, enumerated completely by the quick tier: probe table-cells-enumerated); distinct = distinct hash of the request/response sequence; non-trivial = at least one request was sent",
+		Rule: "one evaluation = one simulated history of 3-18 steps: configure API keys (read/write permission, expiry), switch development mode, advance the clock (session TTL, key expiry), clean sessions, and requests to mainHandler.ServeHTTP with every method (incl. OPTIONS with/without preflight header, PATCH), a handler declaring any of 9 read/write permissions (NotFound, Dynamic, NotSupported, Anyone, User, Admin, Self, out of range) - a custom http.Handler or, in a third of the requests, a registered Endpoint of each function type (ActionFunc, DataFunc, StructFunc, RecordFunc, HandlerFunc) -, credentials (none, Bearer/Basic key valid/expired/unknown/0-3 bytes, malformed Authorization, session cookie valid/expired/unknown, scripted authenticator token/nil/error/denied with valid and invalid permissions, bridge address) and Origin headers; every response is compared with an independent decision function; every fourth run is a slice of the complete decision table (81 handler permission pairs x 9 methods x 20 credential states = 14580 cells, 12 cells per run, enumerated completely by the quick tier: probe table-cells-enumerated); distinct = distinct hash of the request/response sequence; non-trivial = at least one request was sent",
 		Real: []string{"portbase/api router, authentication, request context (instrumented)", "portbase/config (real option registry and getters)", "portbase/modules (RunWorker, microtasks), portbase/log"},
 		Stub: []string{"rng entropy feeders (generator seeded deterministically)", "no sockets: httptest recorder + mainHandler.ServeHTTP", "config-change event hook replaced by a direct call of the key import"},
 	}
